@@ -417,6 +417,9 @@ func (p *streamPool) getOrOpenStream() (*Stream, error) {
 				return stream, nil
 			}
 		}
+		// a pooled stream that is not handed out any more has to be closed like one that PutBack refuses,
+		// otherwise it stays registered in its session and keeps its buffers
+		stream.Close()
 	}
 
 	stream, err := p.Session().OpenStream()
